@@ -81,6 +81,8 @@ class SpecNet(nn.Module):
                     regs[ins['dst']] = torch.add(regs[ins['a']], regs[ins['b']])
                 else:
                     regs[ins['dst']] = regs[ins['a']] + regs[ins['b']]
+            elif op == 'cat':
+                regs[ins['dst']] = torch.cat([regs[r] for r in ins['srcs']], dim=1)
             elif op == 'flatten':
                 if ins.get('how') == 'torch':
                     regs[ins['dst']] = torch.flatten(regs[ins['src']], 1)
@@ -139,6 +141,11 @@ class _B:
     def add(self, a, b, rs):
         dst = self.new_reg()
         self.prog.append({'op': 'add', 'a': a, 'b': b, 'dst': dst, 'fn': rs.choice(['operator', 'torch'])})
+        self.reg = dst
+
+    def cat(self, srcs):
+        dst = self.new_reg()
+        self.prog.append({'op': 'cat', 'srcs': list(srcs), 'dst': dst})
         self.reg = dst
 
     def flatten(self, rs):
@@ -214,7 +221,21 @@ def gen_pit(rs, dim=None):
             feats['reused'] = True
         b.add(b.reg, skip, rs)
         feats['has_residual'] = True
-    if rs.chance(0.35):
+    if rs.chance(0.2):
+        # two parallel branches whose outputs are concatenated along the channel axis
+        src, c_in, size_in = b.reg, b.c, b.size
+        ca, cb = rs.randint(2, 4), rs.randint(2, 4)
+        _conv(b, rs, ca, 3, bn=rs.chance(0.3))
+        ra = b.reg
+        b.reg, b.c, b.size = src, c_in, size_in
+        _conv(b, rs, cb, 3 if dim == 2 else rs.choice([3, 5]), bn=False)
+        rb = b.reg
+        b.cat([ra, rb])
+        b.c = ca + cb
+        b.relu(rs)
+        feats['has_concat'] = True
+    if rs.chance(0.35) and not feats.get('has_concat'):
+        # (a depthwise convolution fed by a channel concatenation gets no feature masker in PIT: not generated)
         _conv(b, rs, None, 3, dw=True, causal=(dim == 1 and rs.chance(0.5)), tag='dw')
         b.relu(rs)
     # strided convolution: PIT freezes receptive-field and dilation masks of strided 1D convs
@@ -251,9 +272,9 @@ def gen_pit(rs, dim=None):
 
 
 def gen_mps(rs):
-    dim = 2
+    dim = 2 if rs.chance(0.75) else 1
     cin = rs.randint(1, 3)
-    size = rs.choice([5, 6])
+    size = rs.choice([5, 6]) if dim == 2 else rs.choice([8, 10])
     b = _B(dim, cin, size)
     feats = {'has_residual': False, 'has_bn': False, 'reused': False}
     c1 = rs.randint(2, 5)
@@ -276,10 +297,10 @@ def gen_mps(rs):
         _conv(b, rs, rs.randint(2, 5), 3, stride=2, bn=rs.chance(0.4), tag='sconv')
         b.relu(rs)
     if rs.chance(0.5):
-        b.call(b.name('gap'), {'t': 'gap2d'})
+        b.call(b.name('gap'), {'t': f'gap{dim}d'})
         b.size = 1
     elif b.size >= 4 and rs.chance(0.5):
-        b.call(b.name('pool'), {'t': 'avgpool2d', 'k': 2})
+        b.call(b.name('pool'), {'t': f'avgpool{dim}d', 'k': 2})
         b.size = b.size // 2
     b.flatten(rs)
     n_out = rs.randint(2, 4)
@@ -292,7 +313,7 @@ def gen_mps(rs):
             feats['has_bn'] = True
         b.relu(rs)
     b.call(b.name('out'), {'t': 'linear', 'cin': b.c, 'cout': n_out, 'b': rs.chance(0.8)})
-    return {'dim': 2, 'in_shape': [cin, size, size], 'mods': b.mods, 'prog': b.prog, 'out': b.reg,
+    return {'dim': dim, 'in_shape': [cin] + [size] * dim, 'mods': b.mods, 'prog': b.prog, 'out': b.reg,
             'n_out': n_out, 'feats': feats}
 
 
